@@ -19,7 +19,7 @@ SCENARIOS = {
     "sem1": ("sem", 1, [["swait", "ssignal"], ["swait", "ssignal"], ["stwait", "ssignal"]]),
     "sem2": ("sem", 0, [["swait"], ["strywait", "ssignal"], ["stwait", "ssignal"]]),
 }
-OPMAP = {"setafter1": "setafter1", "setafter2": "setafter2", "msetafter1": "msetafter1", "msetafter2": "msetafter2", "msetafter3": "msetafter3", "twait": "twait30", "mtwait": "mtwait20", "swait": "wait", "stwait": "twait40", "strywait": "trywait", "ssignal": "signal"}
+OPMAP = {"swaiti": "waiti", "setafter1": "setafter1", "setafter2": "setafter2", "msetafter1": "msetafter1", "msetafter2": "msetafter2", "msetafter3": "msetafter3", "twait": "twait30", "mtwait": "mtwait20", "swait": "wait", "stwait": "twait40", "strywait": "trywait", "ssignal": "signal"}
 
 
 def build():
@@ -173,6 +173,10 @@ def run(ctx):
     DIRECTED = [("sem", 0, [["stwait", "stwait", "stwait"], ["ssignal", "ssignal"]]),
                 ("sem", 0, [["stwait", "strywait", "stwait"], ["ssignal"], ["ssignal", "ssignal", "stwait"]]),
                 ("sem", 1, [["stwait", "stwait", "ssignal", "stwait"], ["stwait", "ssignal", "stwait"]]),
+                # untimed semaphore waits interrupted by a signal (the pthread model returns EINTR once): still one wait, one token
+                # (every thread posts before it waits and init + signals = waits: nobody can starve)
+                ("sem", 0, [["ssignal", "swaiti"], ["ssignal", "swaiti"]]),
+                ("sem", 2, [["swaiti", "swaiti"], ["ssignal", "swaiti"]]),
                 ("signal", 0, [["twait", "twait", "wait"], ["twait", "wait"], ["set"]]),
                 ("signal", 0, [["twait", "twait"], ["reset", "set"], ["twait", "wait"]]),
                 # set immediately followed by reset: the waiters that were blocked when set() was called are released all the same
